@@ -210,6 +210,7 @@ class RRTRun:
         self.n_nontrivial = 0
         self.steps_done = 0
         self.accepted_units = []
+        self.at_insert = {}
         self.node_list = []
         self.box_list = []
         self.consumed = None
@@ -356,6 +357,7 @@ class RRTRun:
         if par is None:
             raise Violation("T1", "a parent-less node %r was inserted after the root" % (p,), {})
         pp6 = pos6(par.getPosition())
+        self.at_insert[p] = (pp6, fl(node.getCost()))
         d = self.pure_dist(p, pp6)
         nc, pc = fl(node.getCost()), fl(par.getCost())
         if abs(nc - (pc + d)) > 1e-9 * max(1.0, abs(nc)):
@@ -535,17 +537,19 @@ class RRTRun:
                         best_c.append(c)
             if best is None:
                 raise Violation("T4", "node %r was inserted although the edge to every examined neighbour collides" % (s,), {})
-            if abs(cost[s] - best) > REL * max(1.0, abs(best)):
-                raise Violation("T6", "node %r stored cost %r via parent %r; the cheapest collision-free examined candidate gives %r via %r" % (
-                    s, cost[s], parent[s], best, best_c[0]), {})
-            if parent[s] not in best_c:
-                raise Violation("T6", "node %r attached to %r; cheapest collision-free examined candidate is %r (cost %r)" % (
-                    s, parent[s], best_c[0], best), {})
-            if parent[s] != n0:
+            # parent and cost as they were when the node was inserted (a later, legitimate re-wiring may change them)
+            par_s, cost_s = self.at_insert.get(s, (parent[s], cost[s]))
+            if abs(cost_s - best) > REL * max(1.0, abs(best)):
+                raise Violation("T6", "node %r was inserted with cost %r via parent %r; the cheapest collision-free examined candidate gives %r via %r" % (
+                    s, cost_s, par_s, best, best_c[0]), {})
+            if par_s not in best_c:
+                raise Violation("T6", "node %r was attached to %r; cheapest collision-free examined candidate is %r (cost %r)" % (
+                    s, par_s, best_c[0], best), {})
+            if par_s != n0:
                 P["parent_not_nearest"] += 1
             if any_collided:
                 P["cheaper_candidate_collides"] += 1
-            classes.add(digest_int((min(len(examined), 8), parent[s] == n0, any_collided, len(ties) > 1,
+            classes.add(digest_int((min(len(examined), 8), par_s == n0, any_collided, len(ties) > 1,
                                     cfg["dmode"], cfg["mode"])))
             tree.append(s)
             arr = np.vstack([arr, np.array(s)])
